@@ -585,6 +585,14 @@ def static_vmapdist3_then_site():
                   lambda a, r: r[1], (jnp.asarray([0.4, 0.65, 0.9], jnp.float32),))
 
 
+def static_dimap_then_site():
+    """v = inner1.dimap(pre=(x, y) -> (x + y,), post=(args, xf, r) -> r * y + xf[0])(x, y) @ "d"; w ~ normal(v, 1) @ "w"
+    (the dimap's return value - which reads the TRANSFORMED arguments - feeds a later site)"""
+    N = Dist("normal")
+    D = Dimap(inner1(), lambda x, y: (x + y,), lambda a, xa, r: r * a[1] + xa[0], (_f(0.4), _f(1.2)))
+    return Static("sdm", [("d", D, lambda a, r: (a[0], a[1])), ("w", N, lambda a, r: (r[0], _f(1.0)))], lambda a, r: r[1] + r[0], (_f(0.4), _f(1.2)))
+
+
 def catalogue(tier="quick"):
     """Name -> thunk; thunks build the Prog lazily (tracing happens later)."""
     N = lambda: Dist("normal")  # noqa: E731
@@ -616,6 +624,7 @@ def catalogue(tier="quick"):
         "scan(kernN)": lambda: Scan(k_nested(), 3),
         "static(vmap3;y)": static_vmap3_then_site,
         "static(vmapdist3;y)": static_vmapdist3_then_site,
+        "static(dimap;w)": static_dimap_then_site,
         "static(vmap)": static_vmap,
         "static(scan)": static_scan,
         "static(switch)": static_switch,
